@@ -166,12 +166,17 @@ def div(a, b):
             raise Unsupported('div by nan')
         if b == 0: raise ZeroDivisionError('symx: division by concrete zero')
         return mul(Fraction(1, 1) / Fraction(b), a) if is_t(a) else norm_num(Fraction(a) / Fraction(b))
-    if is_t(b) and b.op == 'ite' and _nleaves(b) <= 40 and _nonzero_leaves(b):
-        # division by a case split (max/abs chains): divide inside each case, so every quotient has a plain divisor
-        return ite(b.args[0], div(a, b.args[1]), div(a, b.args[2]))
+    if is_t(b) and b.op == 'ite' and _nleaves(b) <= 40:
+        # division by a case split (max/abs chains): divide inside each case, so every quotient has a plain divisor.
+        # The caller has established b != 0 on this path, so a zero leaf sits in a case that is not taken: any value will do.
+        return ite(b.args[0], _div_leaf(a, b.args[1]), _div_leaf(a, b.args[2]))
     if is_t(b) and b.op == 'mul' and not is_t(b.args[0]):
         return div(div(a, b.args[0]), b.args[1])
     return mk('rdiv', [a, b], 'R')
+
+def _div_leaf(a, x):
+    if not is_t(x) and x == 0: return 0
+    return div(a, x)
 
 def _nonzero_leaves(t):
     if not is_t(t): return t != 0
